@@ -128,7 +128,8 @@ def decompile_direction(chk, wd, gen, only_row=None, quick=False):
     chk.tlc_stats(r)
     chk.add("generated_stored_sequences", len(rows))
     if only_row is not None:
-        rows = [x for x in rows if x["times"] == only_row["times"] and x["jumps"] == only_row["jumps"]]
+        rows = [x for x in rows if x["times"] == only_row["times"] and x["jumps"] == only_row["jumps"]
+                and x.get("diffs", []) == only_row.get("diffs", [])]
     # quick tier: the real STD th08 decompiler gets every row with a jump and the jump-free rows up to
     # length 4 (its label emitter is the one the Raiser path exercises on all rows)
     if quick:
@@ -144,13 +145,16 @@ def decompile_direction(chk, wd, gen, only_row=None, quick=False):
     obs = []       # rows for TLC
     for row, o in zip(rows, outs):
         chk.add("traces_validated_against_impl")
-        shape = "jumps%d" % len(row["jumps"])
+        shape = ("diffgroup" if row.get("diffs") else "jumps%d" % len(row["jumps"]))
+        if row.get("diffs"):
+            chk.add("difficulty_group_rows")
         for path in ("test", "std08"):
             if path not in o:
                 continue
             res = o[path]
             rep = {"dir": "decompile", "path": path, "row": row, "observed": res}
-            what = "stored times %s jumps %s (%s)" % (row["times"], json.dumps(row["jumps"]), path)
+            what = "stored times %s jumps %s%s (%s)" % (row["times"], json.dumps(row["jumps"]),
+                                                          " difficulty masks %s" % row["diffs"] if row.get("diffs") else "", path)
             if "tool" in res:
                 raise lib.ToolError("cannot build the %s container: %s" % (path, res["tool"]))
             if "panic" in res:
@@ -181,7 +185,7 @@ def decompile_direction(chk, wd, gen, only_row=None, quick=False):
                 if len(trees) == 2:
                     chk.add("printed_tree_differs_from_ast")
             for t in trees:
-                obs.append({"times": row["times"], "jumps": row["jumps"], "tree": t, "path": path, "text": res["text"]})
+                obs.append({"times": row["times"], "jumps": row["jumps"], "diffs": row.get("diffs", []), "tree": t, "path": path, "text": res["text"]})
     # TLC judges every tree with the documented label rules
     shards = (3 if quick else 6) if len(obs) > 600 else 1
     jobs = []
@@ -207,11 +211,11 @@ def decompile_direction(chk, wd, gen, only_row=None, quick=False):
             raise lib.ToolError("Obs_StoredTimes judged %s of %d rows" % (m.groups(), len(part)))
         for idx, verdict in bad:
             x = part[int(idx) - 1]
-            k = lim.key("labels:%s:%s:jumps%d" % (x["path"], verdict, len(x["jumps"])))
+            k = lim.key("labels:%s:%s:%s" % (x["path"], verdict, "diffgroup" if x.get("diffs") else "jumps%d" % len(x["jumps"])))
             if k:
                 chk.report(k, "the labels printed for stored times %s jumps %s (%s) do not mean those times (%s):\n%s"
                            % (x["times"], json.dumps(x["jumps"]), x["path"], verdict, x["text"]),
-                           {"dir": "decompile", "path": x["path"], "row": {"times": x["times"], "jumps": x["jumps"]}, "tree": x["tree"], "verdict": verdict})
+                           {"dir": "decompile", "path": x["path"], "row": {"times": x["times"], "jumps": x["jumps"], "diffs": x.get("diffs", [])}, "tree": x["tree"], "verdict": verdict})
     for x in obs[7::max(1, len(obs) // 2 - 5)][:2]:
         chk.sample({"stored_times": x["times"], "jumps": x["jumps"], "decompiler": x["path"], "printed": x["text"][-400:]})
     chk.add("trees_judged_by_tlc", len(obs))
